@@ -201,6 +201,22 @@ CLAIMS = {
         technique="static analysis: guard-fact linear entailment at update sites + bounded abstract evaluation of update histories (ast)",
         ref="DESIGN.md §3 C18",
     ),
+    "C11": dict(
+        text=(
+            "Decides structural necessary conditions of C11 for all 26 anchored solve_<puzzle> functions, not agreement with the "
+            "published rules: each solver is evaluated abstractly (constraints are built as trees, Solver.solve replaced by a "
+            "token) on non-square boards in both orientations (2x3, 3x2, 3x4, 4x3; n=2..4 for square-only puzzles) with clues in "
+            "every corner and on the last row/column and with zero-valued clues: (AKR) the returned flag is this function's "
+            "solver.solve() result (or a literal False), every returned container consists solely of this solver's variables that "
+            "were registered as answer keys before solve(), derived expressions are never returned; (IDX-1) no computed index or "
+            "slice bound is negative at any subscript (a silent wrap to the far edge: the 'clue in the first row/column' failure); "
+            "(IDX-2 / DK) nothing raises: out-of-range subscripts and shape mismatches from exchanged height/width roles surface "
+            "on at least one orientation."
+        ),
+        note="Trusted: the abstract evaluator; the fixture recipes in sa/rules/c11.py (problem formats read from each module). What each solver constrains is not compared with the puzzle's rules.",
+        technique="static analysis: abstract evaluation of constraint construction with strict index tracking and answer-key typestate (ast)",
+        ref="DESIGN.md §3 C11",
+    ),
 }
 
 NOT_APPLICABLE = {
